@@ -985,7 +985,18 @@ def generate(P, root):
     src = os.path.join(wd, P.law + ".mfront")
     with open(src, "w") as f:
         f.write(P.text)
-    rc, so, se = V.mfront_generate(src, wd, interface="generic,c,c++")
+    mb = os.environ.get("VERIF_MFRONT_BUILD")
+    if mb:
+        # sensitivity runs (mutants/C37.md, C38.md): a mutated mfront of another build tree generates the
+        # sources; everything else (headers, libraries, compile cache) stays the one of the regular tree
+        import glob
+        dirs = sorted(set(os.path.dirname(p) for p in glob.glob(os.path.join(mb, "**", "lib*.so"), recursive=True)))
+        env = dict(os.environ)
+        env["LD_LIBRARY_PATH"] = ":".join(dirs) + ":" + env.get("LD_LIBRARY_PATH", "")
+        rc, so, se = V.run([os.path.join(mb, "mfront", "src", "mfront"), "--interface=generic,c,c++", src], cwd=wd,
+                           timeout=120, env=env)
+    else:
+        rc, so, se = V.mfront_generate(src, wd, interface="generic,c,c++")
     if rc != 0:
         return wd, "mfront failed (rc=%d): %s" % (rc, (so + se)[-1500:])
     with open(os.path.join(wd, "src", "verif_cxx_wrapper.cxx"), "w") as f:
